@@ -12,8 +12,8 @@ CLAIMED = {
   "Generated-input search: every truncation and every third reader-fault point of small well-formed files of each container is enumerated, as is a HEIF Exif item swept byte by byte across two 4 KiB reader-buffer boundaries; rapid draws structure-addressed malformations, byte mutations, magic+random bodies and reader fault specs over samples and encoder output; thorough adds a native fuzz campaign. Oracle: the call returns in an isolated process (recovered panic or process death = violation). Bounded search: shows absence only on what was explored.",
   "Trusted: the worker protocol and Go's recover/exit-status reporting. Inputs <= 256 KiB. ScanJPEG/ParseXmp recover internally by contract."),
  "C02": ("exploration",
-  "property-based testing (rapid) with an instrumented reader and watchdog + native fuzzing",
-  "Generated hostile inputs incl. loop-targeting classes; oracle: bytes requested <= 4*len+64KiB, Read calls <= len+1024, returns within 10s+50us/byte (confirmed by a solo re-run). Bounded search.",
+  "property-based testing (rapid) with an instrumented reader (bytes requested, read calls), a processor-time bound measured in an isolated worker, and a watchdog + native fuzzing",
+  "Generated hostile inputs incl. loop-targeting classes and readers that fail for good; oracle: bytes requested <= 4*len+64KiB, Read calls <= len+1024, processor time of the worker <= 0.3 s + 2 us/byte (smallest of three measurements), returns within 10s+50us/byte (confirmed by a solo re-run). Bounded search.",
   "Trusted: the instrumented ReadSeeker counts; wall clock only for confirmed non-termination. Loop classes now include PNG chunk lengths that are negative as int32, XMP tokens of up to 1 MB and SubIFDs arrays of up to 128 pointers."),
  "C03": ("exploration",
   "property-based testing (rapid): round trip through an independent TIFF/Exif encoder, record as oracle",
